@@ -68,7 +68,10 @@ def program(rng, i):
     prog = gs.gen_program(rng, cfg)
     if rng.random() < 0.25:
         k = rng.randrange(len(prog.statements) + 1)
-        prog.statements.insert(k, gs.VerbatimBlock(rng.choice(BLOCKS)))
+        block = gs.VerbatimBlock(rng.choice(BLOCKS))
+        prog.statements.insert(k, block)
+        if rng.random() < 0.4:   # the SAME verbatim text a second time: each occurrence is a statement of its own
+            prog.statements.insert(rng.randrange(len(prog.statements) + 1), block)
     return prog
 
 
